@@ -53,6 +53,7 @@ func init() {
 }
 
 func runC03(e *Env) {
+	c03Extra(e)
 	r := e.R
 	r.Rule("C03.R1", "locks", "store-if-absent is one critical section", 1)
 	r.Rule("C03.R2", "paths", "register ⇒ checked ⇒ removed on every exit, at every token/ID registration site", 14)
@@ -326,7 +327,11 @@ func c03Handover(e *Env) {
 		})
 		e.R.Check(okRecv, rule, q+":waiter-receives", e.fpos(f), "the blocking select of the caller receives from the same channel", "the caller does not wait on the channel the continuation sends to")
 	}
-	// dispatch is one-shot: handle() takes the continuation with LoadAndDelete
+	c03OneShotAs(e, rule)
+}
+
+// c03OneShotAs: dispatch is one-shot: handle() takes the continuation with LoadAndDelete.
+func c03OneShotAs(e *Env, rule string) {
 	for _, q := range []string{"udp/client.Conn.handle", "tcp/client.Conn.handle"} {
 		f := e.fn(rule, q)
 		if f == nil {
@@ -348,6 +353,15 @@ func c03Handover(e *Env) {
 }
 
 // ---------------------------------------------------------------------------
+
+func c03Extra(e *Env) {
+	r := e.R
+	r.Rule("C03.R6", "paths", "a hijacked response stays the waiter's: the hijack flag is monotone (never cleared by Reset); the stream buffer is advanced by exactly what was decoded (no message delivered twice)", 3)
+	if e.want("C03.R6") {
+		c12HijackMonotoneAs(e, "C03.R6")
+		c07ConsumptionAs(e, "C03.R6")
+	}
+}
 
 func runC13(e *Env) {
 	r := e.R
@@ -375,6 +389,7 @@ func runC13(e *Env) {
 	}
 	if e.want("C13.R4") {
 		c13Acquisitions(e)
+		sendingEntryDroppedByTokenTest(e, "C13.R4")
 	}
 }
 
